@@ -170,7 +170,7 @@ func (p *wat2X64Worker) buildFunc_body(w io.Writer, fn *ast.Func) error {
 		p.gasCommentInFunc(&bufHeader, "将返回值变量初始化为0")
 		for i, ret := range fnNative.Type.Return {
 			fmt.Fprintf(&bufHeader,
-				"    mov dword ptr [rbp%+d], 0 # ret.%d = 0\n",
+				"    mov qword ptr [rbp%+d], 0 # ret.%d = 0\n",
 				ret.RBPOff, i,
 			)
 		}
@@ -184,7 +184,7 @@ func (p *wat2X64Worker) buildFunc_body(w io.Writer, fn *ast.Func) error {
 	if len(fnNative.Body.Locals) > 0 {
 		p.gasCommentInFunc(&bufHeader, "将局部变量初始化为0")
 		for _, local := range fnNative.Body.Locals {
-			fmt.Fprintf(&bufHeader, "    mov dword ptr [rbp%+d], 0 # local %s = 0\n",
+			fmt.Fprintf(&bufHeader, "    mov qword ptr [rbp%+d], 0 # local %s = 0\n",
 				local.RBPOff, local.Name,
 			)
 		}
